@@ -1,14 +1,15 @@
 ---- MODULE MC_QWNetSim ----
 (* schedule generation for the replay into the real BatchMaker + ReliableSender + QuorumWaiter: seals and peer ACKs in any order *)
 EXTENDS MC_QWNet, Json
-CONSTANT Depth
+CONSTANTS Depth,
+          BurstFirst   \* TRUE: every batch is sealed before the first acknowledgement (a backlog builds up)
 VARIABLE trace
 svars == <<vars, trace>>
 SInit == Init /\ trace = <<>>
 IntEnabled == (head = 0 /\ NextUnreleased <= sealed) \/ (head # 0 /\ {x \in Others : <<head, x>> \in done} \ counted # {})
 SNext == IF IntEnabled THEN (Take \/ Count) /\ UNCHANGED trace
          ELSE \/ Seal /\ trace' = Append(trace, [a |-> "seal"])
-              \/ \E p \in Others : Ack(p) /\ trace' = Append(trace, [a |-> "ack", p |-> p])
+              \/ \E p \in Others : (BurstFirst => sealed = NBatches) /\ Ack(p) /\ trace' = Append(trace, [a |-> "ack", p |-> p])
 SSpec == SInit /\ [][SNext]_svars
 EmitBeh == Len(trace) < Depth \/ PrintT(<<"BEHAVIOUR", ToJson(trace)>>)
 StopAtDepth == Len(trace) <= Depth
